@@ -464,6 +464,126 @@ fn alphabet() -> Vec<Comp> {
     v
 }
 
+
+// ---- time directives ----------------------------------------------------------------
+
+/// One file whose access and modification times are set to an exact (seconds, nanoseconds) pair;
+/// the status-change time is whatever the kernel stamped (read back with lstat).
+#[derive(Serialize, Deserialize, Debug, Clone)]
+pub struct TimeCase {
+    pub secs: i64,
+    pub ns: u32,
+    /// 'A', 'T' or 'C'
+    pub which: char,
+    /// Some((left_justified, width)) on the %X@ directive
+    pub width: Option<(bool, u8)>,
+}
+
+/// days since 1970-01-01 -> (year, month, day), proleptic Gregorian
+fn civil_from_days(z: i64) -> (i64, u32, u32) {
+    let z = z + 719_468;
+    let era = z.div_euclid(146_097);
+    let doe = z.rem_euclid(146_097);
+    let yoe = (doe - doe / 1460 + doe / 36_524 - doe / 146_096) / 365;
+    let y = yoe + era * 400;
+    let doy = doe - (365 * yoe + yoe / 4 - yoe / 100);
+    let mp = (5 * doy + 2) / 153;
+    let d = (doy - (153 * mp + 2) / 5 + 1) as u32;
+    let m = if mp < 10 { mp + 3 } else { mp - 9 } as u32;
+    (if m <= 2 { y + 1 } else { y }, m, d)
+}
+
+fn gen_time_case(g: &mut Gen) -> TimeCase {
+    let secs = match g.weighted(&[4, 3, 2, 2]) {
+        0 => g.pick(&[0i64, 1, 59, 60, 3599, 86_399, 86_400, 951_782_400, 951_868_799, 1_709_164_800, 1_577_934_245, 2_147_483_647, 2_147_483_648, 4_102_444_799, 8_836_052_645]),
+        1 => g.range(0, 1i64 << 33),
+        2 => g.pick(&[-1i64, -60, -86_400, -86_401, -315_521_755, -2_147_483_648]),
+        _ => g.range(-(1i64 << 31), -1),
+    };
+    let ns = match g.weighted(&[3, 2, 3]) {
+        0 => g.pick(&[0u32, 1, 10, 100, 1_000, 500_000_000, 120_000_000, 123_456_789, 999_999_999, 999_999_000, 999_000_000, 100_000_000, 250_000_000, 1_000_000]),
+        // a short fraction: d * 10^k
+        1 => (g.range(1, 9) as u32) * 10u32.pow(g.below(9) as u32),
+        _ => g.below(1_000_000_000) as u32,
+    };
+    TimeCase { secs, ns, which: g.pick(&['A', 'T', 'T', 'C']), width: if g.chance(1, 4) { Some((g.bool(), g.range(0, 30) as u8)) } else { None } }
+}
+
+fn check_times(ctx: &mut Ctx, c: &TimeCase) -> Outcome {
+    ctx.fresh_case_dir();
+    std::fs::write("c/f", b"x").unwrap();
+    crate::engine::fsx::set_times("c/f", Some((c.secs, c.ns)), Some((c.secs, c.ns)));
+    let md = std::fs::symlink_metadata("c/f").unwrap();
+    let (secs, ns) = match c.which {
+        'A' => (md.atime(), md.atime_nsec() as u32),
+        'T' => (md.mtime(), md.mtime_nsec() as u32),
+        _ => (md.ctime(), md.ctime_nsec() as u32),
+    };
+    if c.which != 'C' && (secs, ns) != (c.secs, c.ns) {
+        return Pass::new(false).class("file-system-did-not-keep-the-time-stamp").ok();
+    }
+    let x = c.which;
+    let at = match c.width {
+        None => format!("%{x}@"),
+        Some((left, w)) => format!("%{}{w}{x}@", if left { "-" } else { "" }),
+    };
+    let fmt = format!("{at}|%{x}S|%{x}+|%{x}Y-%{x}m-%{x}d+%{x}H:%{x}M:%{x}S|%{x}Y-%{x}m-%{x}d %{x}H:%{x}M\n");
+    let o = ctx.find(&["c/f", "-printf", &fmt]);
+    let desc = |extra: &str| format!("file c/f with {} time {secs}.{ns:09} (TZ=UTC)\nfind c/f -printf {fmt:?}\nexit {} stdout {:?} stderr {:?}\n{extra}", match x { 'A' => "access", 'T' => "modification", _ => "status-change" }, o.status, lossy(&o.stdout), lossy(&o.stderr));
+    if let Some(p) = &o.panic {
+        return fail(format!("C16:panic:{}", p.split(": ").next().unwrap_or("?")), desc(p));
+    }
+    let era = if secs < 0 { "before-1970" } else { "after-1970" };
+    let text = lossy(&o.stdout);
+    let fields: Vec<&str> = text.strip_suffix('\n').unwrap_or(&text).split('|').collect();
+    if o.status != 0 || fields.len() != 5 || !text.ends_with('\n') {
+        return fail(format!("C16:time-directive:line-incomplete-or-error:{era}"), desc("expected five '|'-separated fields, a newline and exit 0"));
+    }
+    // %X@: the time stamp in decimal, seconds and a ten-digit fraction.  Before 1970 with a
+    // fraction both the timespec reading (tv_sec, then tv_nsec) and the arithmetic reading are taken.
+    let mut at_alts = vec![format!("{secs}.{ns:09}0")];
+    if secs < 0 && ns > 0 {
+        let whole = secs + 1;
+        at_alts.push(format!("{}{}.{:09}0", if whole == 0 { "-" } else { "" }, whole, 1_000_000_000 - ns));
+    }
+    let pad = |v: &str| match c.width {
+        Some((left, w)) if v.chars().count() < w as usize => {
+            let blanks = " ".repeat(w as usize - v.chars().count());
+            if left { format!("{v}{blanks}") } else { format!("{blanks}{v}") }
+        }
+        _ => v.to_string(),
+    };
+    if !at_alts.iter().any(|a| pad(a) == fields[0]) {
+        return fail(format!("C16:%{x}@:{era}{}", if c.width.is_some() { ":width" } else { "" }), desc(&format!("%{x}@ expected {:?}", at_alts.iter().map(|a| pad(a)).collect::<Vec<_>>())));
+    }
+    let frac_kind = if ns == 0 { "zero-fraction" } else if ns % 10 == 0 { "fraction-ends-in-zeros" } else { "full-fraction" };
+    let want_s = format!("{:02}.{ns:09}0", secs.rem_euclid(60));
+    if fields[1] != want_s {
+        return fail(format!("C16:%{x}S:{frac_kind}"), desc(&format!("%{x}S expected {want_s:?}")));
+    }
+    let (y, m, d) = civil_from_days(secs.div_euclid(86_400));
+    let sod = secs.rem_euclid(86_400);
+    let want_min = format!("{y:04}-{m:02}-{d:02} {:02}:{:02}", sod / 3600, sod % 3600 / 60);
+    if fields[4] != want_min {
+        return fail(format!("C16:%{x}Y-m-d-H-M:{era}"), desc(&format!("expected {want_min:?}")));
+    }
+    // %X+ is the date, '+', the time with the ten-digit fraction: the same text as its parts give
+    let want_plus = format!("{y:04}-{m:02}-{d:02}+{:02}:{:02}:{want_s}", sod / 3600, sod % 3600 / 60);
+    if fields[3] != want_plus {
+        return fail(format!("C16:%{x}Y-%{x}m-%{x}d+%{x}H:%{x}M:%{x}S:{frac_kind}"), desc(&format!("expected {want_plus:?}")));
+    }
+    if fields[2] != want_plus {
+        return fail(format!("C16:%{x}+:{frac_kind}"), desc(&format!("%{x}+ expected {want_plus:?} (what %{x}Y-%{x}m-%{x}d+%{x}H:%{x}M:%{x}S gives)")));
+    }
+    Pass::new(ns % 10 == 0 || secs < 0 || c.width.is_some())
+        .class(frac_kind)
+        .class(era)
+        .class(match x { 'A' => "access-time", 'T' => "modification-time", _ => "status-change-time" })
+        .class_if(c.width.is_some(), "width-on-time-directive")
+        .sample(json!({"secs": secs, "ns": ns, "which": x.to_string(), "output": text}))
+        .ok()
+}
+
 // ---- identities -------------------------------------------------------------------
 
 #[derive(Serialize, Deserialize, Debug, Clone)]
@@ -631,6 +751,8 @@ fn run(w: &mut Worker) {
     w.regress::<Case>("format", check);
     w.regress::<IdCase>("identities", check_identities);
     w.regress::<NoStatCase>("no-status-record", check_nostat);
+    w.regress::<TimeCase>("times", check_times);
+    w.random("times", w.tier.pick(6_000, 100_000), (6, 12), 100, gen_time_case, check_times);
     let mut ns: Vec<NoStatCase> = vec![];
     for l in ['s', 'm', 'n', 'i', 'U', 'G', 'y', 'd', 'f'] {
         ns.push(NoStatCase { letters: vec![l], to_file: false });
@@ -671,6 +793,8 @@ fn replay(w: &mut Worker, sub: &str, v: Value) -> Outcome {
         check_identities(&mut w.ctx, &decode(v))
     } else if sub == "no-status-record" {
         check_nostat(&mut w.ctx, &decode(v))
+    } else if sub == "times" {
+        check_times(&mut w.ctx, &decode(v))
     } else {
         check(&mut w.ctx, &decode(v))
     }
